@@ -258,6 +258,87 @@ theorem shipped_prefixes_separated :
     Spec.regNet.hrp ≠ Spec.testNet3.hrp ∧ Spec.testNet4.hrp = Spec.testNet3.hrp ∧ Spec.sigNet.hrp = Spec.testNet3.hrp := by
   decide
 
+/-! ### WIF -/
+
+/-- encode → decode: net id byte, compressed flag and key come back -/
+theorem wif_roundtrip (H : List UInt8 → List UInt8) (hH : ∀ x, (H x).length = 4) (w : Wif)
+    (hk : w.key.length = 32) (hv : validScalar w.key = true) : decodeWIF H (wifString H w) = .ok w :=
+  Lemmas.decodeWIF_wifString H hH w hk hv
+
+example : validScalar (List.replicate 31 0 ++ [1]) = true := by decide
+
+/-- decode → encode: every accepted WIF string is reproduced exactly (so a string with a bad checksum, a wrong
+compression marker or an out-of-range key is never accepted as some other key's string) -/
+theorem wif_roundtrip_decode (H : List UInt8 → List UInt8) (s : List UInt8) (w : Wif)
+    (h : decodeWIF H s = .ok w) : wifString H w = s ∧ w.key.length = 32 ∧ validScalar w.key = true :=
+  Lemmas.wifString_decodeWIF H s w h
+
+/-! ### BIP32 extended keys -/
+
+/-- 78-byte serialization + Base58Check: encode → decode -/
+theorem xkey_string_roundtrip (H : List UInt8 → List UInt8) (hH : ∀ x, (H x).length = 4)
+    (validPK : List UInt8 → Bool) (k : XKey) (hw : Lemmas.XKey.wf validPK k = true) :
+    xkeyParse H validPK (xkeyString H k) = .ok k :=
+  Lemmas.xkeyParse_xkeyString H hH validPK k hw
+
+example : Lemmas.XKey.wf (fun _ => true)
+    ⟨[4, 0x88, 0xad, 0xe4], 0, [0, 0, 0, 0], 0, List.replicate 32 7, List.replicate 31 0 ++ [1], true⟩ = true := by
+  decide
+
+/-- decode → encode -/
+theorem xkey_string_roundtrip_decode (H : List UInt8 → List UInt8) (validPK : List UInt8 → Bool) (s : List UInt8)
+    (k : XKey) (h : xkeyParse H validPK s = .ok k) : xkeyString H k = s ∧ Lemmas.XKey.wf validPK k = true :=
+  Lemmas.xkeyString_xkeyParse H validPK s k h
+
+/-- `Neuter (Derive k i) = Derive (Neuter k) i` for a private parent and non-hardened `i`, over an abstract
+group: HMAC-SHA512 and hash160 are arbitrary functions; the curve enters through `parse ∘ ser = id` and
+`(a+b)·G = a·G + b·G`. The case `IL·G = ∞` (rejected only on the public side) is excluded by hypothesis. -/
+theorem ckd_commutes {Pt : Type} (C : Curve Pt) (hmac : List UInt8 → List UInt8 → List UInt8)
+    (h160 : List UInt8 → List UInt8) (pubVer : List UInt8 → Option (List UInt8))
+    (k c k' c' : XKey) (i : Nat)
+    (hpriv : k.isPrivate = true) (hi : i < 2 ^ 31)
+    (hser : ∀ P, C.parse (C.ser P) = some P)
+    (hhom : ∀ a b, C.baseMul ((a + b) % C.n) = C.add (C.baseMul a) (C.baseMul b))
+    (hn : 0 < C.n ∧ C.n ≤ 2 ^ 256)
+    (hinf : C.isInf (C.baseMul (beNat ((hmac k.chainCode (pubKeyBytes C k ++ be32 i)).take 32))) = false)
+    (hd : derive C hmac h160 k i = .ok c)
+    (nk : neuter C pubVer k = some k') (nc : neuter C pubVer c = some c') :
+    derive C hmac h160 k' i = .ok c' :=
+  Lemmas.ckd_commutes C hmac h160 pubVer k c k' c' i hpriv hi hser hhom hn hinf hd nk nc
+
+/-- the hypotheses are satisfiable: the additive group ℤ/7 with a unary serialization -/
+example : ∃ C : Curve Nat, (∀ P, C.parse (C.ser P) = some P) ∧
+    (∀ a b, C.baseMul ((a + b) % C.n) = C.add (C.baseMul a) (C.baseMul b)) ∧ 0 < C.n ∧ C.n ≤ 2 ^ 256 :=
+  ⟨⟨7, fun k => k % 7, fun a b => (a + b) % 7, fun p => p == 0, fun p => List.replicate p 0,
+    fun b => some b.length⟩, by
+    refine ⟨?_, ?_, by decide, by decide⟩
+    · intro P; simp
+    · intro a b; simp only; omega⟩
+
+/-! ### taproot script trees -/
+
+/-- every leaf of every tree shape has a control block that verifies under the computed output key: induction on
+the tree. The tagged hashes `HL`, `HB` and the output-key map (x-only lift + tweak) are arbitrary functions. -/
+theorem taproot_leaf_proves (HL : UInt8 → List UInt8 → List UInt8) (HB : List UInt8 → List UInt8 → List UInt8)
+    (outKey : List UInt8 → List UInt8 → List UInt8 × Bool)
+    (t : TapTree) (internalX : List UInt8) (p : LeafProof) (h : p ∈ t.proofs HL HB) :
+    verifyLeaf HL HB outKey (controlBlock outKey internalX (t.hash HL HB) p)
+      (outKey internalX (t.hash HL HB)).1 p.script = true :=
+  Lemmas.verifyLeaf_proofs HL HB outKey t internalX p h
+
+/-- … and every leaf (index, version, script) of the tree has such a proof entry -/
+theorem taproot_every_leaf_has_proof (HL : UInt8 → List UInt8 → List UInt8)
+    (HB : List UInt8 → List UInt8 → List UInt8) (t : TapTree) :
+    (t.proofs HL HB).map (fun p => (p.idx, p.ver, p.script)) = Lemmas.leavesOf t :=
+  Lemmas.proofs_cover HL HB t
+
+/-- the tree shape `AssembleTaprootScriptTree` builds contains exactly the given leaves -/
+theorem taproot_assemble_keeps_leaves (ls : List TapTree) (t : TapTree) (h : assembleTree ls = some t) :
+    (Lemmas.leavesOf t).Perm (Lemmas.leavesOfList ls) :=
+  Lemmas.assembleTree_leaves ls t h
+
+example : (assembleTree [.leaf 0 0xc0 [0x51], .leaf 1 0xc0 [0x52], .leaf 2 0xc0 [0x51]]).isSome = true := by decide
+
 /-! ### constants regenerated from the compiled tree (T2) -/
 
 theorem pin_names : Spec.nets.map (·.name) =
@@ -292,6 +373,8 @@ theorem pin_registered :
 theorem pin_consts : Generated.C16.bech32Const = (BechVer.v0.const : Int) ∧
     Generated.C16.bech32mConst = (BechVer.vM.const : Int) ∧
     Generated.C16.payToAnchorScript = (payToAddrScript (.p2a [])).map (fun c => (c.toNat : Int)) ∧
-    Generated.C16.maxDataCarrierSize = 80 := by decide
+    Generated.C16.maxDataCarrierSize = 80 ∧ Generated.C16.secpN = (secpN : Int) ∧
+    Generated.C16.hardenedKeyStart = 2 ^ 31 ∧ Generated.C16.minSeedBytes = 16 ∧ Generated.C16.maxSeedBytes = 64 ∧
+    Generated.C16.baseLeafVersion = 0xc0 := by decide
 
 end BV.C16
